@@ -179,6 +179,18 @@ class Graph:
         )
 
     @functools.cached_property
+    def bound_values(self) -> dict[str, Any]:
+        """Bound values of this graph and of all nested graphs, whatever the default selection.
+
+        ``inputs.bound`` is scoped to the default selection. Execution is not: every
+        reachable node runs, and a run-time ``select=`` may widen the scope that was
+        validated, so value resolution looks bindings up here.
+        """
+        from hypergraph.graph.input_spec import _collect_bound_values
+
+        return _collect_bound_values(self._nodes, self._bound)
+
+    @functools.cached_property
     def self_producers(self) -> dict[str, set[str]]:
         """Map output_name → set of node names that produce it.
 
@@ -536,6 +548,7 @@ class Graph:
                 )
             new_graph._bound = dict(self._bound)
             new_graph.__dict__.pop("inputs", None)
+            new_graph.__dict__.pop("bound_values", None)
 
         if self._selected is not None:
             new_graph = new_graph.select(*self._selected)
@@ -664,6 +677,7 @@ class Graph:
         new_graph._bound = dict(self._bound)
         # Clear cached_property values that depend on _bound / _selected / _entrypoints
         new_graph.__dict__.pop("inputs", None)
+        new_graph.__dict__.pop("bound_values", None)
         # _selected and _entrypoints are immutable tuples (or None), safe to share via copy.copy
         # All other attributes preserved: _strict_types, _nodes, _nx_graph, _cached_hash
         return new_graph
